@@ -412,7 +412,11 @@ impl<'c> Out<'c> {
                         }
                     }
                     if xml_id && !self.opts.plain && self.ch.chance(1, 3) {
+                        // one or three more spaces: the whole run collapses to a single one
                         self.s.push(' ');
+                        if self.ch.chance(1, 2) {
+                            self.s.push_str("  ");
+                        }
                         self.last_literal_cr = false;
                         self.feat("xml-id-extra-spaces");
                     }
